@@ -87,7 +87,7 @@ URIS = [xmlgen.XTCE_NS, xmlgen.XTCE_NS, "http://www.omg.org/space/xtce", "urn:ex
 
 
 def gen_docs(rng, tier):
-    ndefs = 30 if tier == "quick" else 1500
+    ndefs = 60 if tier == "quick" else 1500
     for _ in range(ndefs):
         d = defgen.Defn(rng, apid_name=rng.choice(["PKT_APID", "APID"]), max_depth=rng.choice([1, 2, 3]), fanout=3,
                         adj_pool=ADJ_POOL, rich=True)
